@@ -371,3 +371,6 @@ func VF_C16_b() {
 		}
 	}
 }
+
+// VFChainDBOn gives harnesses of other packages (raftv2: C16.c) a ChainDB over the KV model.
+func VFChainDBOn(kv *vf.KV) *ChainDB { return vfCdb(kv) }
